@@ -129,7 +129,7 @@ func runC05(c *Ctx) {
 		}
 		return false
 	}
-	H := []string{`builtin:len(strings.Fields(param1)) != 0`, `builtin:len(strings.Fields(param1)) <= 2`, strings.TrimSuffix(bi.sizeDesc, "#0") + "#1 == nil"}
+	H := []string{`builtin:len(strings.Fields(param1)) != 0`, strings.TrimSuffix(bi.sizeDesc, "#0") + "#1 == nil"}
 	res := CountPaths(f, func(in ssa.Instruction) (int, int) {
 		if isConsume(in) {
 			return 1, 1
